@@ -246,7 +246,8 @@ func ExecuteC17(t *testing.T, plan *Plan) *RunResult {
 	res.Signature = bodyHash([]byte(fmt.Sprintf("%s|%v|%d", cause, accepted, c.Pos)))
 	res.NonTrivial = true
 	res.Events = 3
-	res.EventHash = bodyHash([]byte(res.Outcome))
+	// archive bytes (tar timestamps) and keys differ between processes: hash the logical outcome only
+	res.EventHash = bodyHash([]byte(fmt.Sprintf("%s|%v|%v", cause, accepted, len(res.Violations))))
 	return res
 }
 
@@ -401,7 +402,7 @@ func ExecuteC20b(t *testing.T, plan *Plan) *RunResult {
 	res.Signature = bodyHash([]byte(fmt.Sprintf("%s|%s|%v", cause, what, opErr != nil)))
 	res.NonTrivial = true
 	res.Events = 4
-	res.EventHash = bodyHash([]byte(res.Outcome))
+	res.EventHash = bodyHash([]byte(fmt.Sprintf("%s|%s|%v|%v", cause, what, opErr != nil, len(res.Violations))))
 	return res
 }
 
